@@ -183,6 +183,10 @@ def run_check(fn, pid: str, tier: str, level: str, replay: str | None = None) ->
         # that is reported as a violation, not as a failure of the machinery.  AttributeError / TypeError / ImportError are kept as
         # machinery errors: they are what a drift between the harness and the package's (private) interfaces looks like.
         tb = traceback.extract_tb(e.__traceback__)
+        # innermost frame that belongs to the package or to the harness (frames of third-party libraries in between are skipped: a
+        # numpy error raised for what the package handed to numpy is the package's)
+        own = [f for f in tb if str(f.filename).startswith(str(REPO) + os.sep) or str(f.filename).startswith(str(VERIF) + os.sep)]
+        tb = tb[:tb.index(own[-1]) + 1] if own else tb
         inner = tb[-1].filename if tb else ""
         in_pkg = str(inner).startswith(str(REPO) + os.sep) and not str(inner).startswith(str(VERIF) + os.sep)
         if in_pkg and not isinstance(e, (AttributeError, TypeError, ImportError, NameError)):
